@@ -54,3 +54,13 @@ Definition chk_align (size : Z) (Ms outs : list (smatrix Q)) : bool :=
   | Some As => all2 smat_eq As outs
   | None => false
   end.
+
+(* bit-exact stream: same pattern, values within the stated rounding bound of
+   (s + D) - D in binary64 (tol = 0 demands exact equality) *)
+Definition smat_close (tol : Q) (A B : smatrix Q) : bool :=
+  all2 (fun x y => Z.eqb (fst x) (fst y) && q_close tol (snd x) (snd y)) A B.
+Definition chk_align_tol (tol : Q) (size : Z) (Ms outs : list (smatrix Q)) : bool :=
+  match align_nnz QOps size Ms with
+  | Some As => all2 (smat_close tol) As outs
+  | None => false
+  end.
